@@ -714,6 +714,39 @@ func (m *collection) appendChildLLSnapshot(dst *segmentStack,
 	return dst
 }
 
+// refreshChildLLSnapshots recursively gives the existing child stacks
+// of ss the matching child snapshots of the lower level snapshot src,
+// releasing the ones they held.
+func (m *collection) refreshChildLLSnapshots(ss *segmentStack, src Snapshot) {
+	for cName, childStack := range ss.childSegStacks {
+		childCollection, exists := m.childCollections[cName]
+		if !exists || childStack == nil ||
+			childStack.incarNum != childCollection.incarNum {
+			continue
+		}
+
+		var childSnap Snapshot
+		if src != nil {
+			childSnap, _ = src.ChildCollectionSnapshot(cName)
+
+			childFooter, ok := childSnap.(*Footer)
+			if ok && childFooter != nil &&
+				childFooter.incarNum != childCollection.incarNum {
+				childFooter.Close()
+				childSnap = nil
+			}
+		}
+
+		prev := childStack.lowerLevelSnapshot
+		childStack.lowerLevelSnapshot = NewSnapshotWrapper(childSnap, nil)
+		if prev != nil {
+			prev.decRef()
+		}
+
+		childCollection.refreshChildLLSnapshots(childStack, childSnap)
+	}
+}
+
 // appendChildStacks recursively appends child segment stacks.
 func (m *collection) appendChildStacks(dst, src *segmentStack) *segmentStack {
 	if src == nil {
